@@ -19,7 +19,7 @@ def _server(pool=4, feed_threads=0):
         def __init__(self):
             self.listener = None
             self.subs = 0
-        def initialize(self, p, c): pass
+        def initialize(self, p, c=None): pass
         def set_listener(self, l): self.listener = l
         def issnapshot_available(self, i): return False
         def subscribe(self, i):
